@@ -142,13 +142,25 @@ def _exc_class(kind):
         return type('Fehleré', (Exception,), {})
     if kind == 'none-name':
         return type('NoneName', (Exception,), {'dbusErrorName': None})
+    if kind == 'nested':
+        return _Holder.NestedFailure       # its qualified name differs from its name
+    if kind == 'local':
+        class LocalFailure(Exception):     # defined in a function: '<locals>' in the qualified name
+            pass
+        return LocalFailure
     raise ValueError(kind)
+
+
+class _Holder:
+    class NestedFailure(Exception):
+        pass
 
 
 def _expected_error_name(kind):
     return {'plain': 'org.txdbus.PythonException.VerifFailure', 'named': 'org.verif.Error.Named',
             'badname': 'org.txdbus.InvalidErrorName', 'nonascii': 'org.txdbus.InvalidErrorName',
-            'none-name': 'org.txdbus.PythonException.NoneName'}[kind]
+            'none-name': 'org.txdbus.PythonException.NoneName', 'nested': 'org.txdbus.PythonException.NestedFailure',
+            'local': 'org.txdbus.PythonException.LocalFailure'}[kind]
 
 
 TEXTS = {'plain': 'it broke', 'empty': '', 'unicode': 'käput €', 'nul': 'bad\x00text',
@@ -506,7 +518,7 @@ def gen_case(draw, tier):
         outc['pres'] = draw(S.presentation)
         outc['as_tuple'] = draw(st.booleans())
         if kind in ('raise', 'deferred-fail'):
-            outc['exc'] = draw(st.sampled_from(['plain', 'plain', 'named', 'badname', 'nonascii', 'none-name']))
+            outc['exc'] = draw(st.sampled_from(['plain', 'plain', 'named', 'badname', 'nonascii', 'none-name', 'nested', 'local']))
             outc['text'] = draw(st.sampled_from(['plain', 'plain', 'empty', 'unicode', 'nul', 'surrogate']))
         call['outcome'] = outc
         calls.append(call)
